@@ -14,6 +14,7 @@ import (
 	"sort"
 	"strconv"
 	"strings"
+	"time"
 
 	"github.com/DataDog/datadog-go/v5/statsd"
 	"go.uber.org/zap"
@@ -32,16 +33,24 @@ type VerifC08Op struct {
 	K     int      `json:"k"`
 	Es    [][4]int `json:"es"` // [id, p, q, deleted]
 	Full  bool     `json:"full"`
-	Fault string   `json:"fault"` // none | sinkfail | sinkpanic | kill | diebefore | dieafter | srcfail | sinkreject (at = entity id)
+	Fault string   `json:"fault"` // none | sinkfail | sinkpanic | kill | diebefore | dieafter | srcfail | sinkreject (at = entity id) | slow (at = ms slept per sink call)
 	At    int      `json:"at"`
 }
+
+// set by the driver's main package (package jobs cannot import package web)
+var (
+	VerifC08Server      func(store *server.Store, dsm *server.DsManager) (url string, setReject func(id int), closeFn func())
+	VerifC08DecodeSince func(token string) int
+)
 
 type VerifC08Case struct {
 	Members int          `json:"members"`
 	Union   bool         `json:"union"`
 	Los     []bool       `json:"los"`
 	Batch   int          `json:"batch"`
-	Handlers []string    `json:"handlers"` // onError handlers of both triggers: requeue | rerun
+	Handlers []string    `json:"handlers"` // onError handlers of both triggers: requeue | rerun | log
+	Sink     string      `json:"sink"`     // dataset (default) | http: HttpDatasetSink -> the hub's own POST handler
+	SrcHTTP  bool        `json:"srchttp"`  // single source read through HttpDatasetSource from the hub's /changes handler (latestOnly = los[0], limit = batch)
 	Ops     []VerifC08Op `json:"ops"`
 }
 
@@ -51,6 +60,7 @@ type VerifC08RunObs struct {
 	Sink    [][4]int `json:"sink"`    // latest view of the sink dataset, sorted by id
 	SinkLen int      `json:"sinklen"` // length of the sink's change feed
 	SrcLens []int    `json:"srclens"`
+	SinkNew [][4]int `json:"sinknew"` // the entries this run appended to the sink's change feed
 	Detail  string   `json:"detail,omitempty"`
 }
 
@@ -71,6 +81,7 @@ type verifC08Sink struct {
 	at     int
 	runner *Runner
 	jobID  string
+	remote bool // http sink: the receiver refuses the entity, not this wrapper
 }
 
 func (s *verifC08Sink) GetConfig() map[string]interface{} { return s.inner.GetConfig() }
@@ -85,7 +96,10 @@ func (s *verifC08Sink) processEntities(runner *Runner, entities []*server.Entity
 	if s.fault == "sinkfail" && i == s.at {
 		return errors.New("verif: scripted sink failure")
 	}
-	if s.fault == "sinkreject" {
+	if s.fault == "slow" {
+		time.Sleep(time.Duration(s.at) * time.Millisecond)
+	}
+	if s.fault == "sinkreject" && !s.remote {
 		for _, e := range entities {
 			if verifC08Tuple(e)[0] == s.at {
 				return errors.New("verif: sink rejects entity")
@@ -197,6 +211,10 @@ type verifC08Env struct {
 	jobs   map[string]*job // "incremental" / "fullsync": the job objects, built once like AddJob does and reused
 	sinks  map[string]*verifC08Sink
 	srcs   map[string]jobSource.Source
+	url    string // base url of the hub endpoint (http sink / http source)
+	reject func(int)
+	stop   func()
+	lease  time.Duration
 	dir    string
 	cfg    *conf.Config
 	store  *server.Store
@@ -212,6 +230,9 @@ func (env *verifC08Env) open() {
 		StoreLocation: env.dir,
 		RunnerConfig:  &conf.RunnerConfig{PoolIncremental: 10, PoolFull: 5, Concurrent: 0},
 	}
+	if env.lease > 0 {
+		env.cfg.FullsyncLeaseTimeout = env.lease
+	}
 	sd := &statsd.NoOpClient{}
 	env.store = server.NewStore(env.cfg, sd)
 	pm := security.NewProviderManager(env.cfg, env.store, logger)
@@ -219,9 +240,16 @@ func (env *verifC08Env) open() {
 	env.runner = NewRunner(env.cfg, env.store, tps, server.NoOpBus(), sd)
 	env.dsm = server.NewDsManager(env.cfg, env.store, server.NoOpBus())
 	env.sched = NewScheduler(env.cfg, env.store, env.dsm, env.runner)
+	if VerifC08Server != nil {
+		env.url, env.reject, env.stop = VerifC08Server(env.store, env.dsm)
+	}
 }
 
 func (env *verifC08Env) close() {
+	if env.stop != nil {
+		env.stop()
+		env.stop = nil
+	}
 	if env.store != nil {
 		_ = env.store.Close()
 		env.store = nil
@@ -250,6 +278,12 @@ func verifC08Token(union bool, members int, tok string) ([]int, error) {
 	}
 	if !union {
 		n, err := strconv.Atoi(tok)
+		if err != nil && VerifC08DecodeSince != nil {
+			// HttpDatasetSource: the hub's /changes token
+			if m := VerifC08DecodeSince(tok); m >= 0 {
+				n, err = m, nil
+			}
+		}
 		if err != nil {
 			return nil, fmt.Errorf("token %q", tok)
 		}
@@ -294,6 +328,18 @@ func VerifC08Run(c VerifC08Case, dir string) (obs VerifC08Obs) {
 		return fail("case", errors.New("bad shape"))
 	}
 	env := &verifC08Env{dir: dir}
+	for _, op := range c.Ops {
+		if op.Op == "lease" {
+			env.lease = time.Second
+		}
+	}
+	httpSink := c.Sink == "http"
+	if (httpSink || c.SrcHTTP) && VerifC08Server == nil {
+		return fail("case", errors.New("no http server factory"))
+	}
+	if c.SrcHTTP && (c.Union || c.Members != 1) {
+		return fail("case", errors.New("http source is a single source"))
+	}
 	env.open()
 	defer func() { env.close() }()
 	defer verifhook.SetHandler(nil)
@@ -307,22 +353,42 @@ func VerifC08Run(c VerifC08Case, dir string) (obs VerifC08Obs) {
 		return fail("create", err)
 	}
 
-	// the job configuration, parsed by the real scheduler code
-	var srcJSON string
-	if c.Union {
-		parts := make([]string, c.Members)
-		for k := 0; k < c.Members; k++ {
-			parts[k] = fmt.Sprintf(`{"Name":"%s","LatestOnly":%v}`, verifC08SrcName(k), c.Los[k])
+	// the job configuration, parsed by the real scheduler code (built again after a restart: new endpoint url)
+	jobConfigJSON := func(onError string) string {
+		var srcJSON string
+		batch := c.Batch
+		switch {
+		case c.Union:
+			parts := make([]string, c.Members)
+			for k := 0; k < c.Members; k++ {
+				parts[k] = fmt.Sprintf(`{"Name":"%s","LatestOnly":%v}`, verifC08SrcName(k), c.Los[k])
+			}
+			srcJSON = `{"Type":"UnionDatasetSource","DatasetSources":[` + strings.Join(parts, ",") + `]}`
+		case c.SrcHTTP:
+			// the page size is the endpoint's own limit parameter; the job's batch size only cuts one response
+			// into several callbacks, so it is kept above the limit
+			srcJSON = fmt.Sprintf(`{"Type":"HttpDatasetSource","Url":"%s/datasets/src0/changes?latestOnly=%v&limit=%d"}`,
+				env.url, c.Los[0], c.Batch)
+			batch = 1000
+		default:
+			srcJSON = fmt.Sprintf(`{"Type":"DatasetSource","Name":"src0","LatestOnly":%v}`, c.Los[0])
 		}
-		srcJSON = `{"Type":"UnionDatasetSource","DatasetSources":[` + strings.Join(parts, ",") + `]}`
-	} else {
-		srcJSON = fmt.Sprintf(`{"Type":"DatasetSource","Name":"src0","LatestOnly":%v}`, c.Los[0])
+		sinkJSON := `{"Type":"DatasetSink","Name":"sink"}`
+		if httpSink {
+			sinkJSON = fmt.Sprintf(`{"Type":"HttpDatasetSink","Url":"%s/datasets/sink/entities"}`, env.url)
+		}
+		return fmt.Sprintf(`{"id":"%s","title":"%s","batchSize":%d,
+		"triggers":[{"triggerType":"cron","jobType":"incremental","schedule":"@every 2000s"%s},
+		            {"triggerType":"cron","jobType":"fullsync","schedule":"@every 4000s"%s}],
+		"source":%s,"sink":%s}`, verifC08JobID, verifC08JobID, batch, onError, onError, srcJSON, sinkJSON)
 	}
 	hparts := make([]string, 0)
 	for _, h := range c.Handlers {
 		switch h {
 		case "requeue":
 			hparts = append(hparts, `{"errorHandler":"reQueue"}`)
+		case "log":
+			hparts = append(hparts, `{"errorHandler":"log"}`)
 		case "rerun":
 			// the retry is scheduled a day ahead: it never fires while the case runs
 			hparts = append(hparts, `{"errorHandler":"reRun","maxRetries":100,"retryDelay":86400}`)
@@ -334,15 +400,10 @@ func VerifC08Run(c VerifC08Case, dir string) (obs VerifC08Obs) {
 	if len(hparts) > 0 {
 		onError = `,"onError":[` + strings.Join(hparts, ",") + `]`
 	}
-	jobJSON := fmt.Sprintf(`{"id":"%s","title":"%s","batchSize":%d,
-		"triggers":[{"triggerType":"cron","jobType":"incremental","schedule":"@every 2000s"%s},
-		            {"triggerType":"cron","jobType":"fullsync","schedule":"@every 4000s"%s}],
-		"source":%s,"sink":{"Type":"DatasetSink","Name":"sink"}}`, verifC08JobID, verifC08JobID, c.Batch, onError, onError, srcJSON)
-
 	// the job objects are built once per process life by the scheduler's own code (verify +
 	// toTriggeredJobs, as AddJob does) and reused for every run, like cron / onchange triggers do
 	buildJobs := func() error {
-		jc, err := env.sched.Parse([]byte(jobJSON))
+		jc, err := env.sched.Parse([]byte(jobConfigJSON(onError)))
 		if err != nil {
 			return err
 		}
@@ -362,10 +423,19 @@ func VerifC08Run(c VerifC08Case, dir string) (obs VerifC08Obs) {
 				t = JobTypeFull
 			}
 			spec := j.pipeline.spec()
-			if _, ok := spec.sink.(*datasetSink); !ok {
+			switch spec.sink.(type) {
+			case *datasetSink:
+				if httpSink {
+					return fmt.Errorf("sink is %T", spec.sink)
+				}
+			case *httpDatasetSink:
+				if !httpSink {
+					return fmt.Errorf("sink is %T", spec.sink)
+				}
+			default:
 				return fmt.Errorf("sink is %T", spec.sink)
 			}
-			w := &verifC08Sink{inner: spec.sink, fault: "none", runner: env.runner, jobID: jc.ID}
+			w := &verifC08Sink{inner: spec.sink, fault: "none", runner: env.runner, jobID: jc.ID, remote: httpSink}
 			spec.sink = w
 			env.jobs[t] = j
 			env.sinks[t] = w
@@ -396,6 +466,19 @@ func VerifC08Run(c VerifC08Case, dir string) (obs VerifC08Obs) {
 			spec.source = &verifC08Source{inner: env.srcs[jobType], fault: op.Fault, at: op.At}
 		}
 		jcID := verifC08JobID
+		if env.reject != nil {
+			if op.Fault == "sinkreject" && httpSink {
+				env.reject(op.At)
+			} else {
+				env.reject(-1)
+			}
+		}
+		before := 0
+		if sk := env.dsm.GetDataset("sink"); sk != nil {
+			if f, err := verifC08Feed(sk); err == nil {
+				before = len(f)
+			}
+		}
 		hits := map[string]int{}
 		verifhook.SetHandler(func(name string, arg string) {
 			if arg != jcID {
@@ -467,6 +550,12 @@ func VerifC08Run(c VerifC08Case, dir string) (obs VerifC08Obs) {
 				return r, err
 			}
 			r.SinkLen = len(sf)
+			if before <= len(sf) {
+				r.SinkNew = sf[before:]
+			}
+		}
+		if r.SinkNew == nil {
+			r.SinkNew = make([][4]int, 0)
 		}
 		r.SrcLens = make([]int, c.Members)
 		for k := 0; k < c.Members; k++ {
@@ -499,6 +588,15 @@ func VerifC08Run(c VerifC08Case, dir string) (obs VerifC08Obs) {
 			}
 			if err := ds.StoreEntities(ents); err != nil {
 				return fail("store", err)
+			}
+		case "lease":
+			// an http client opened a fullsync on the sink dataset without a sync id and went away
+			sk := env.dsm.GetDataset("sink")
+			if sk == nil {
+				return fail("lease", errors.New("no sink"))
+			}
+			if err := sk.StartFullSyncWithLease(""); err != nil {
+				return fail("lease", err)
 			}
 		case "drop":
 			if err := env.dsm.DeleteDataset("sink"); err != nil {
